@@ -377,6 +377,7 @@ func (t *fnTrans) convertInstr(in *ssa.Convert) {
 }
 
 func (t *fnTrans) ensureStrFns() {
+	t.S.ixArith = true
 	if !t.S.declared["str_of_bytes"] {
 		t.S.declared["str_of_bytes"] = true
 		t.S.decls = append(t.S.decls, "(declare-fun str_of_bytes ((Array Int Int) Int Int) Str)", "(declare-fun bytes_of_str (Str) (Array Int Int))")
@@ -432,6 +433,9 @@ func (t *fnTrans) sliceInstr(in *ssa.Slice) {
 	if in.Max != nil {
 		mx = t.idxTerm(in.Max)
 	}
+	if lo != "0" {
+		t.S.ixArith = true
+	}
 	switch u := in.X.Type().Underlying().(type) {
 	case *types.Slice:
 		x := t.term(t.val(in.X))
@@ -445,7 +449,11 @@ func (t *fnTrans) sliceInstr(in *ssa.Slice) {
 		} else {
 			t.oblige("safety", "slice", "slice bounds in range", fmt.Sprintf("(and (<= 0 %s) (<= %s %s) (<= %s %s))", lo, lo, hi, hi, cp), in.Pos())
 		}
-		t.defineReg(in, fmt.Sprintf("(mk_slice (sbase %s) (+ (soff %s) %s) (- %s %s) (- %s %s))", x, x, lo, hi, lo, cp, lo))
+		off := fmt.Sprintf("(+ (soff %s) %s)", x, lo)
+		if lo == "0" {
+			off = fmt.Sprintf("(soff %s)", x)
+		}
+		t.defineReg(in, fmt.Sprintf("(mk_slice (sbase %s) %s (- %s %s) (- %s %s))", x, off, hi, lo, cp, lo))
 	case *types.Basic: // string
 		x := t.term(t.val(in.X))
 		if hi == "" {
